@@ -5,6 +5,7 @@ import (
 	stdxml "encoding/xml"
 	"fmt"
 	"io"
+	"strings"
 )
 
 // ---- C11, second correspondence: the Coq *specification* (document grammar, render_doc, expect_doc,
@@ -68,6 +69,29 @@ func encItems(items []xitem) []int64 {
 		case itEnd:
 			out = encBytesStr(out, it.s)
 			out = encBytesStr(out, it.ws)
+		case itTag:
+			if it.pi {
+				out = append(out, 1)
+			} else {
+				out = append(out, 0)
+			}
+			out = encBytesStr(out, it.s)
+			out = append(out, int64(len(it.gpieces)))
+			for _, g := range it.gpieces {
+				out = encBytesStr(out, g.lead)
+				out = encBytesStr(out, g.name)
+				out = append(out, int64(g.vk))
+				if g.vk != 0 {
+					out = encBytesStr(out, g.w1)
+					out = encBytesStr(out, g.w2)
+					if g.vk == 2 {
+						out = append(out, int64(g.q))
+					}
+					out = encBytesStr(out, g.val)
+				}
+			}
+			out = encBytesStr(out, it.ws)
+			out = append(out, int64(it.closer))
 		}
 	}
 	return out
@@ -155,6 +179,29 @@ func decItems(a []int64) ([]xitem, bool) {
 		case itEnd:
 			it.s = r.str()
 			it.ws = r.str()
+		case itTag:
+			it.pi = r.next() != 0
+			it.s = r.str()
+			for m := r.count(); m > 0 && r.ok; m-- {
+				var g c11Gattr
+				g.lead, g.name = r.str(), r.str()
+				g.vk = int(r.next())
+				if g.vk != 0 {
+					g.w1, g.w2 = r.str(), r.str()
+					if g.vk == 2 {
+						g.q = byte(r.next())
+					} else {
+						g.vk = 1
+					}
+					g.val = r.str()
+				}
+				it.gpieces = append(it.gpieces, g)
+			}
+			it.ws = r.str()
+			it.closer = int(r.next())
+			if it.closer != 7 && it.closer != 8 {
+				it.closer = 6
+			}
 		default:
 			r.ok = false
 		}
@@ -218,6 +265,14 @@ func xmlspecGen(r *Rng, tier string, emit func(Case)) {
 			continue
 		}
 		emit(xmlspecCase(items, "doc"))
+	}
+	// the general tag opener: free-form processing-instruction / tag content
+	ng := 3000
+	if tier == "thorough" {
+		ng = 60000
+	}
+	for i := 0; i < ng; i++ {
+		emit(xmlspecCase(c11GenTagItems(r), "gtag"))
 	}
 	// single constructs with boundary bodies
 	single := []xitem{
@@ -283,7 +338,7 @@ func xmlspecClass(c Case, out []int64) string {
 		kinds[it.kind] = true
 	}
 	s := "spec/"
-	for k, n := range []string{"t", "c", "d", "D", "p", "s", "e"} {
+	for k, n := range []string{"t", "c", "d", "D", "p", "s", "e", "g"} {
 		if kinds[k] {
 			s += n
 		}
@@ -372,3 +427,81 @@ func c11XmlrefShrink(c Case) []Case {
 }
 
 var c11XmlrefModel = &Model{Name: "xmlref", Gen: c11XmlrefGen, Impl: c11XmlrefImpl, Shrink: c11XmlrefShrink, Class: xmlspecClass}
+
+// c11GenTagItems: a general tag opener (free-form PI or tag content: bare names, unquoted values, '/' and '?'
+// inside names, empty names before '=', pieces glued to a closing quote, any closer) followed by character
+// data and an element.  Built so that the side conditions of the Coq grammar hold by construction.
+func c11GenTagItems(r *Rng) []xitem {
+	nameChars := []string{"a", "b", "x", "é", "-", ":", "$", ";", "(", ")", "&", "<", "\"", "'", "/", "?", "[", "]"}
+	genName := func(allowEmpty bool) string {
+		if allowEmpty && r.Chance(1, 6) {
+			return ""
+		}
+		s := r.PickStr([]string{"a", "b", "x", "echo", "$v", "é", "/", "?", "'", "\""})
+		for k := r.Intn(3); k > 0; k-- {
+			s += r.PickStr(nameChars)
+		}
+		if s[len(s)-1] == '/' || s[len(s)-1] == '?' {
+			s += "z" // '/' and '?' never last: the byte after the name may be '>'
+		}
+		return s
+	}
+	ws1 := func() string { return r.PickStr([]string{" ", " ", "\t", "\n", "\r\n", "  "}) }
+	ws0 := func() string {
+		if r.Chance(2, 3) {
+			return ""
+		}
+		return ws1()
+	}
+	it := xitem{kind: itTag, pi: r.Chance(2, 3), s: genXMLName(r), closer: 6 + r.Intn(3)}
+	n := r.Intn(4)
+	prevQuoted := false
+	for i := 0; i < n; i++ {
+		g := c11Gattr{lead: ws1(), vk: r.Intn(3)}
+		if prevQuoted && r.Chance(1, 3) {
+			g.lead = ""
+		}
+		g.name = genName(g.vk != 0)
+		if g.name == "" {
+			g.w1 = ""
+		} else if g.vk != 0 {
+			g.w1 = ws0()
+		}
+		if g.vk != 0 {
+			g.w2 = ws0()
+		}
+		switch g.vk {
+		case 1:
+			g.val = r.PickStr([]string{"v", "1", "x=y", "a/b", "é", "$", "c'd", "e\"f", "?z", "/z"})
+			if c := g.val[len(g.val)-1]; c == '/' || c == '?' {
+				g.val += "z"
+			}
+		case 2:
+			g.q = '"'
+			if r.Bool() {
+				g.q = '\''
+			}
+			g.val = strings.ReplaceAll(r.PickStr(c11ValChunks)+r.PickStr(c11ValChunks), string(g.q), "")
+			g.val = strings.ReplaceAll(g.val, "\r\n", "\r")
+		}
+		// a bare name must not be followed by '=' (it would be its value): the next piece then has a name
+		if i > 0 && it.gpieces[i-1].vk == 0 && g.name == "" {
+			g.name = "n"
+			if g.vk != 0 {
+				g.w1 = ws0()
+			}
+		}
+		if g.lead == "" && g.name == "" && false {
+			g.lead = " "
+		}
+		prevQuoted = g.vk == 2
+		it.gpieces = append(it.gpieces, g)
+	}
+	it.ws = ws0()
+	items := []xitem{it}
+	if r.Bool() {
+		items = append(items, xitem{kind: itText, s: r.PickStr([]string{"b?>", "t", " x ?> ", "?>"})})
+	}
+	items = append(items, xitem{kind: itStart, s: "a", void: true})
+	return items
+}
